@@ -1236,6 +1236,8 @@ func (e *Env) callExpr(n *ast.CallExpr) Val {
 		}
 		dom, _, _ := vc.mapHeap(mt)
 		return Val{K: KInt, S: Sel(vc.heapGet(e.st, dom, "(Array Int (Array Int Bool))"), m.S)}
+	case "upd":
+		return Val{K: KInt, S: Sto(arg(0).S, arg(1).S, arg(2).S)}
 	case "member2":
 		return BoolV(Sel(Sel(arg(0).S, arg(1).S), arg(2).S))
 	case "add2":
